@@ -22,7 +22,8 @@ sys.path.insert(0, HERE)
 
 
 def built_props():
-    return sorted(f[:-3].upper() for f in os.listdir(os.path.join(HERE, 'rules')) if f.startswith('c') and f[1:3].isdigit())
+    import re
+    return sorted(f[:-3].upper() for f in os.listdir(os.path.join(HERE, 'rules')) if re.match(r'^c\d\d\.py$', f))
 
 
 def run_one(args):
